@@ -877,6 +877,7 @@ func (pc *PeerConnection) updateConnectionState(
 	// "closed", so re-reading isClosed under the same lock, and comparing, storing and notifying
 	// without releasing it, keeps a state computed before Close from being stored or reported after
 	// "closed".
+	verifYield("ucs.computed")
 	pc.mu.Lock()
 	defer pc.mu.Unlock()
 	if pc.isClosed.Load() {
@@ -2533,6 +2534,7 @@ func (pc *PeerConnection) close(shouldGracefullyClose bool) error { //nolint:cyc
 		pc.isGracefullyClosingOrClosed = true
 	}
 	pc.mu.Unlock()
+	verifYield("close.cs1")
 
 	if isAlreadyClosingOrClosed {
 		if !shouldGracefullyClose {
@@ -2542,16 +2544,21 @@ func (pc *PeerConnection) close(shouldGracefullyClose bool) error { //nolint:cyc
 		// If we are not the ones doing the closing, we just wait for the graceful close
 		// to happen and then return.
 		if isAlreadyGracefullyClosingOrClosed {
+			verifYield("close.gwait")
 			<-pc.isGracefulCloseDone
+			verifYield("close.gwoke")
 
 			return nil
 		}
 		// Otherwise we need to go through the graceful closure flow once the
 		// normal closure is done since there are extra steps to take with a
 		// graceful close.
+		verifYield("close.cwait")
 		<-pc.isCloseDone
+		verifYield("close.cwoke")
 	} else {
 		defer close(pc.isCloseDone)
+		defer verifYield("close.d1")
 	}
 
 	if shouldGracefullyClose {
@@ -2594,6 +2601,7 @@ func (pc *PeerConnection) close(shouldGracefullyClose bool) error { //nolint:cyc
 
 	// https://www.w3.org/TR/webrtc/#dom-rtcpeerconnection-close (step #3)
 	pc.signalingState.Set(SignalingStateClosed)
+	verifYield("close.sig")
 
 	// https://www.w3.org/TR/webrtc/#dom-rtcpeerconnection-close (step #4)
 	pc.mu.Lock()
@@ -2628,6 +2636,7 @@ func (pc *PeerConnection) close(shouldGracefullyClose bool) error { //nolint:cyc
 
 	// https://www.w3.org/TR/webrtc/#dom-rtcpeerconnection-close (step #11)
 	pc.updateConnectionState(pc.ICEConnectionState(), pc.dtlsTransport.State())
+	verifYield("close.ucs")
 
 	closeErrs = append(closeErrs, doGracefulCloseOps()...)
 
